@@ -221,6 +221,25 @@ func c04Recovery(p *Prog, r *Report, rule string) {
 			pubLoop = l
 		}
 	}
+	// the recovery rule may sit in a helper that sorts the records: kept, dropped[, maxSeq] := split(records)
+	var pubRange types.Object // what the publication loop ranges over, in the scope the record loop lives in
+	if pubLoop != nil {
+		pubRange = objOf(info, pubLoop.X)
+	}
+	if recLoop == nil && pubLoop != nil {
+		if sp := c04SplitHelper(p, fi, recordsObj); sp != nil {
+			recLoop = sp.loop
+			if o, ok := sp.results[delObj]; ok {
+				delObj = o
+			} else {
+				r.Undecided(rule, kCoreLoad+"#returns-delete-list", p.pos(sp.call), "the delete list Load returns is not a result of "+sp.h.Key)
+				return
+			}
+			if o, ok := sp.results[pubRange]; ok {
+				pubRange = o
+			}
+		}
+	}
 	if recLoop == nil || pubLoop == nil {
 		r.Undecided(rule, kCoreLoad, p.pos(fi.Decl), "record loop / publication loop not identified")
 		return
@@ -242,7 +261,7 @@ func c04Recovery(p *Prog, r *Report, rule string) {
 		r.Undecided(rule, kCoreLoad, p.pos(recLoop), "kept-records map not identified")
 		return
 	}
-	r.Check(objOf(info, pubLoop.X) == keptObj, rule, kCoreLoad+"#publishes-kept-only", p.pos(pubLoop), "publication loop ranges over the kept records",
+	r.Check(pubRange == keptObj, rule, kCoreLoad+"#publishes-kept-only", p.pos(pubLoop), "publication loop ranges over the kept records",
 		"the publication loop does not range over the records kept by the recovery rule")
 	// publication argument is the loop variable
 	pubOK := false
@@ -391,4 +410,92 @@ func constValOfKeyStr(p *Prog, key string) (string, bool) {
 		s = s[1 : len(s)-1]
 	}
 	return s, true
+}
+
+// splitHelper describes `a, b, c := h(records)` in Load where h (a function of the package) holds the loop over
+// the records: results maps Load's variables to the variables h returns in the same positions.
+type splitHelper struct {
+	h       *FuncInfo
+	call    *ast.CallExpr
+	loop    *ast.RangeStmt
+	results map[types.Object]types.Object
+}
+
+func c04SplitHelper(p *Prog, fi *FuncInfo, recordsObj types.Object) *splitHelper {
+	if recordsObj == nil {
+		return nil
+	}
+	info := fi.Pkg.TypesInfo
+	var res *splitHelper
+	ast.Inspect(fi.Decl.Body, func(x ast.Node) bool {
+		as, ok := x.(*ast.AssignStmt)
+		if !ok || len(as.Rhs) != 1 || res != nil {
+			return true
+		}
+		c, ok := ast.Unparen(as.Rhs[0]).(*ast.CallExpr)
+		if !ok {
+			return true
+		}
+		h := p.staticCallee(fi.Pkg, c)
+		if h == nil || h.Pkg != fi.Pkg {
+			return true
+		}
+		// the parameter that receives the records
+		var recParam types.Object
+		args := argExprs(c, h)
+		for i, po := range paramObjs(h) {
+			if po != nil && i >= 0 && args[i] != nil && objOf(info, args[i]) == recordsObj {
+				recParam = po
+			}
+		}
+		if recParam == nil {
+			return true
+		}
+		var loop *ast.RangeStmt
+		for _, l := range rangeLoops(h.Decl.Body) {
+			if objOf(info, l.X) == recParam {
+				loop = l
+			}
+		}
+		if loop == nil {
+			return true
+		}
+		// result variables by position: named results, or the identifiers every return statement returns
+		sig := h.Sig()
+		pos := make([]types.Object, sig.Results().Len())
+		if h.Decl.Type.Results != nil {
+			i := 0
+			for _, fld := range h.Decl.Type.Results.List {
+				for _, nm := range fld.Names {
+					if i < len(pos) {
+						pos[i] = info.Defs[nm]
+					}
+					i++
+				}
+			}
+		}
+		walkNoLit(h.Decl.Body, func(y ast.Node) bool {
+			if rs, ok := y.(*ast.ReturnStmt); ok && len(rs.Results) == len(pos) {
+				for i, e := range rs.Results {
+					if o := objOf(info, e); o != nil {
+						if _, isVar := o.(*types.Var); isVar && (pos[i] == nil || pos[i] == o) {
+							pos[i] = o
+						}
+					}
+				}
+			}
+			return true
+		})
+		m := map[types.Object]types.Object{}
+		for i, l := range as.Lhs {
+			if i < len(pos) && pos[i] != nil {
+				if lo := objOf(info, l); lo != nil {
+					m[lo] = pos[i]
+				}
+			}
+		}
+		res = &splitHelper{h: h, call: c, loop: loop, results: m}
+		return true
+	})
+	return res
 }
